@@ -240,7 +240,7 @@ fn one_case(seed: u64, i: u64, rep: &mut Report) {
 
 pub fn run(tier: &str, seed: u64, replay: Option<u64>) -> Report {
   let scale: u64 = (if tier == "thorough" { 40 } else { 1 }) * util::env_u64("PV_SCALE", 1);
-  let n: u64 = if tier == "miri" { 2 } else { 200_000 * scale };
+  let n: u64 = if tier == "miri" { 4 } else { 200_000 * scale };
   let mut total = Report::new();
   if let Some(c) = replay { one_case(seed, c, &mut total); return total; }
   direct_leg(&mut total, &|rep: &mut Report, sig: &str, msg: String| {
